@@ -91,9 +91,11 @@ type c16File struct {
 
 type c16FileIO struct{}
 
-func (c16FileIO) Path(f c16File) string                 { return f.name }
-func (c16FileIO) Lstat(f c16File) (os.FileInfo, error)  { return c16FileInfo{f}, nil }
-func (c16FileIO) Open(f c16File) (io.ReadCloser, error) { return io.NopCloser(bytes.NewReader(f.data)), nil }
+func (c16FileIO) Path(f c16File) string                { return f.name }
+func (c16FileIO) Lstat(f c16File) (os.FileInfo, error) { return c16FileInfo{f}, nil }
+func (c16FileIO) Open(f c16File) (io.ReadCloser, error) {
+	return io.NopCloser(bytes.NewReader(f.data)), nil
+}
 
 type c16FileInfo struct{ f c16File }
 
@@ -345,6 +347,10 @@ type c16Job struct {
 	Kind      string // fetch | modfile | fromcache
 	Mod       int
 	Goroutine int
+	// Fresh makes the job use its own newly created Cache (and registry client) instead of
+	// the process-wide one: as good as a fresh process for the stateless FetchFromCache,
+	// at a fraction of the cost (process creation is what dominates the run time).
+	Fresh bool `json:",omitempty"`
 }
 
 type c16Spec struct {
@@ -358,6 +364,15 @@ type c16Spec struct {
 	PauseNth    int
 	PauseMs     int
 	ReachedFile string
+	// ReleaseFile: when set, the pause ends as soon as this file exists (PauseMs is then
+	// only the upper bound), so that the overlap does not depend on process start-up times.
+	ReleaseFile string `json:",omitempty"`
+	// StartedFile is written when the worker is initialised, right before it runs its jobs
+	// (or, with GateFile, before it waits for the gate); GateFile, when set, must exist
+	// before the jobs start (waiting at most GateMs).
+	StartedFile string `json:",omitempty"`
+	GateFile    string `json:",omitempty"`
+	GateMs      int    `json:",omitempty"`
 }
 
 type c16Result struct {
@@ -368,6 +383,7 @@ type c16Result struct {
 	NotFound bool   // fromcache: the error is modregistry.ErrNotFound
 	Verdict  string // "equal" or the first difference
 	ErrText  string // diagnostics only; never part of a protocol line
+	Pre      string // traced sequential runs: snapshot taken right before the job
 }
 
 type c16Event struct {
@@ -450,6 +466,25 @@ func c16CompareLoc(loc module.SourceLoc, m *c16Mod) string {
 	return "equal"
 }
 
+// c16WaitFile waits until file exists, at most max (file == "": just sleeps max).
+// It only shapes schedules; no verdict depends on it.
+func c16WaitFile(file string, max time.Duration) bool {
+	if file == "" {
+		time.Sleep(max)
+		return false
+	}
+	deadline := time.Now().Add(max)
+	for {
+		if _, err := os.Stat(file); err == nil {
+			return true
+		}
+		if !time.Now().Before(deadline) {
+			return false
+		}
+		time.Sleep(time.Millisecond)
+	}
+}
+
 func c16Child(c *Cfg) {
 	fail := func(msg string) {
 		fmt.Fprintln(os.Stderr, "C16 worker:", msg)
@@ -475,18 +510,33 @@ func c16Child(c *Cfg) {
 	if err != nil {
 		fail("modcache.New: " + err.Error())
 	}
-	for _, j := range spec.Jobs {
+	// Tracing: all jobs run sequentially (one goroutine) and exactly one of them is not a
+	// fromcache job; that one is the traced job (FetchFromCache passes no hook point).
+	traced := -1
+	sequential := true
+	for i, j := range spec.Jobs {
 		if j.Mod < 0 || j.Mod >= len(mods) {
 			fail("bad module index")
 		}
+		if j.Goroutine != spec.Jobs[0].Goroutine {
+			sequential = false
+		}
+		if j.Kind != "fromcache" || len(spec.Jobs) == 1 {
+			if traced >= 0 {
+				traced = -2
+			} else if traced == -1 {
+				traced = i
+			}
+		}
 	}
-
 	out := &c16Out{Results: make([]c16Result, len(spec.Jobs)), Events: []c16Event{}}
-	tracing := spec.Trace && len(spec.Jobs) == 1
+	tracing := spec.Trace && sequential && traced >= 0
+	if spec.Trace && !tracing {
+		fail("Trace needs sequential jobs with exactly one non-fromcache job")
+	}
 	var tm *c16Mod
 	if tracing {
-		tm = mods[spec.Jobs[0].Mod]
-		out.Init = c16Snapshot(spec.CacheDir, tm)
+		tm = mods[spec.Jobs[traced].Mod]
 	}
 	if tracing || spec.PauseAt != "" {
 		var mu sync.Mutex
@@ -503,9 +553,15 @@ func c16Child(c *Cfg) {
 				if spec.ReachedFile != "" {
 					os.WriteFile(spec.ReachedFile, []byte("reached\n"), 0o666)
 				}
-				time.Sleep(time.Duration(spec.PauseMs) * time.Millisecond)
+				c16WaitFile(spec.ReleaseFile, time.Duration(spec.PauseMs)*time.Millisecond)
 			}
 		})
+	}
+	if spec.StartedFile != "" {
+		os.WriteFile(spec.StartedFile, []byte("started\n"), 0o666)
+	}
+	if spec.GateFile != "" {
+		c16WaitFile(spec.GateFile, time.Duration(spec.GateMs)*time.Millisecond)
 	}
 
 	ctx := context.Background()
@@ -513,6 +569,27 @@ func c16Child(c *Cfg) {
 		j := spec.Jobs[i]
 		m := mods[j.Mod]
 		res := c16Result{Kind: j.Kind, Mod: j.Mod}
+		cache := cache
+		if j.Fresh {
+			reg, err := ociclient.New(spec.Host, &ociclient.Options{
+				Insecure:  true,
+				Transport: &c16Transport{id: spec.WorkerID, base: http.DefaultTransport},
+			})
+			if err == nil {
+				cache, err = modcache.New(modregistry.NewClient(reg), spec.CacheDir)
+			}
+			if err != nil {
+				res.Err, res.ErrText = "err", "fresh cache: "+err.Error()
+				out.Results[i] = res
+				return
+			}
+		}
+		if tracing {
+			res.Pre = c16Snapshot(spec.CacheDir, m)
+			if i == traced {
+				out.Init = res.Pre
+			}
+		}
 		defer func() {
 			if e := recover(); e != nil {
 				res.Ok, res.Err, res.ErrText = false, "panic", fmt.Sprint(e)
@@ -773,10 +850,11 @@ type c16Proc struct {
 	outDir string
 	done   chan struct{}
 	err    error
+	t0     time.Time
 }
 
 func (p *c16Parent) start(spec c16Spec, crashAt int) *c16Proc {
-	pr := &c16Proc{done: make(chan struct{})}
+	pr := &c16Proc{done: make(chan struct{}), t0: time.Now()}
 	raw, _ := json.Marshal(spec)
 	pr.outDir, _ = os.MkdirTemp(p.root, "out-")
 	pr.ctx, pr.cancel = context.WithTimeout(context.Background(), c16ChildTimeout)
@@ -809,6 +887,9 @@ func (p *c16Parent) start(spec c16Spec, crashAt int) *c16Proc {
 
 func (pr *c16Proc) wait() c16Run {
 	<-pr.done
+	if os.Getenv("VERIF_C16_DEBUG") != "" {
+		fmt.Fprintf(os.Stderr, "child %v user=%v sys=%v\n", time.Since(pr.t0).Round(time.Millisecond), pr.cmd.ProcessState.UserTime().Round(time.Millisecond), pr.cmd.ProcessState.SystemTime().Round(time.Millisecond))
+	}
 	timedOut := pr.ctx.Err() != nil
 	pr.cancel()
 	os.RemoveAll(pr.outDir)
@@ -929,6 +1010,30 @@ func (p *c16Parent) flush(bufs []*c16Buf) {
 	}
 }
 
+// c16WaitFileOrDone waits until file exists (file == "": never), done is closed, or max elapsed.
+func c16WaitFileOrDone(file string, done <-chan struct{}, max time.Duration) bool {
+	deadline := time.Now().Add(max)
+	for {
+		if file != "" {
+			if _, err := os.Stat(file); err == nil {
+				return true
+			}
+		}
+		if !time.Now().Before(deadline) {
+			return false
+		}
+		select {
+		case <-done:
+			if file != "" {
+				_, err := os.Stat(file)
+				return err == nil
+			}
+			return false
+		case <-time.After(2 * time.Millisecond):
+		}
+	}
+}
+
 // c16Pool runs f(0..n-1) on a pool of workers.
 func c16Pool(n, workers int, f func(i int)) {
 	if workers > n {
@@ -1024,14 +1129,6 @@ func (cs *c16Case) snap(m *c16Mod) string { return c16Snapshot(cs.dir, m) }
 
 func c16OneJob(kind string, mod int) []c16Job { return []c16Job{{Kind: kind, Mod: mod}} }
 
-// res0 returns the single result of a finished child (or a synthetic error result).
-func c16Res0(run c16Run) c16Result {
-	if run.Out == nil || len(run.Out.Results) == 0 {
-		return c16Result{Err: "err", ErrText: "no result: " + run.Fail}
-	}
-	return run.Out.Results[0]
-}
-
 func c16Ret(kind string, r c16Result) string {
 	if !r.Ok {
 		return "err"
@@ -1042,21 +1139,36 @@ func c16Ret(kind string, r c16Result) string {
 	return "avail"
 }
 
-// fromCache runs FetchFromCache in a fresh process on the (quiescent) cache and reports it
-// to the model. It returns whether a location was served and its verdict.
-func (cs *c16Case) fromCache(m *c16Mod, tag string) (avail bool, verdict string, res c16Result) {
-	snap := cs.snap(m)
-	run, _ := cs.run(tag, c16OneJob("fromcache", m.Idx), c16Opts{})
-	res = c16Res0(run)
-	cs.buf.FromCache(m.N(), snap, c16Ret("fromcache", res))
-	return res.Ok, res.Verdict, res
+// c16TR is the outcome of one traced child: the traced job, optionally preceded and
+// followed by a FetchFromCache on a fresh Cache in the same (quiescent) process.
+type c16TR struct {
+	Run    c16Run
+	Res    c16Result
+	Before c16Result // valid when fcBefore was asked
+	After  c16Result // valid when fcAfter was asked
 }
 
-// traced runs one traced child and emits its trace op.
-func (cs *c16Case) traced(kind string, m *c16Mod, tag string, fault string) (c16Run, c16Result) {
-	run, w := cs.run(tag, c16OneJob(kind, m.Idx), c16Opts{Trace: true, Fault: fault})
-	res := c16Res0(run)
-	if run.Out != nil {
+// traced runs one traced child, emits its trace op and the FetchFromCache observations.
+func (cs *c16Case) traced(kind string, m *c16Mod, tag string, fault string, fcBefore, fcAfter bool) c16TR {
+	var jobs []c16Job
+	if fcBefore {
+		jobs = append(jobs, c16Job{Kind: "fromcache", Mod: m.Idx, Fresh: true})
+	}
+	ti := len(jobs)
+	jobs = append(jobs, c16Job{Kind: kind, Mod: m.Idx})
+	if fcAfter {
+		jobs = append(jobs, c16Job{Kind: "fromcache", Mod: m.Idx, Fresh: true})
+	}
+	run, w := cs.run(tag, jobs, c16Opts{Trace: true, Fault: fault})
+	noRes := c16Result{Err: "err", ErrText: "no result: " + run.Fail}
+	tr := c16TR{Run: run, Res: noRes, Before: noRes, After: noRes}
+	if run.Out != nil && len(run.Out.Results) == len(jobs) {
+		rs := run.Out.Results
+		tr.Res = rs[ti]
+		if fcBefore {
+			tr.Before = rs[0]
+			cs.buf.FromCache(m.N(), rs[0].Pre, c16Ret("fromcache", rs[0]))
+		}
 		f := "none"
 		switch fault {
 		case "get", "modget":
@@ -1064,12 +1176,20 @@ func (cs *c16Case) traced(kind string, m *c16Mod, tag string, fault string) (c16
 		case "copy", "short":
 			f = "copy"
 		}
-		cs.buf.TraceOp(kind, m.N(), f, run.Out.Init, c16Ret(kind, res), run.Out.Events, cs.replay)
+		if kind == "fromcache" {
+			cs.buf.FromCache(m.N(), run.Out.Init, c16Ret(kind, tr.Res))
+		} else {
+			cs.buf.TraceOp(kind, m.N(), f, run.Out.Init, c16Ret(kind, tr.Res), run.Out.Events, cs.replay)
+		}
+		if fcAfter {
+			tr.After = rs[len(rs)-1]
+			cs.buf.FromCache(m.N(), tr.After.Pre, c16Ret("fromcache", tr.After))
+		}
 	}
 	if fault != "" && cs.env.srv.faultLeft(w) != 0 {
 		cs.buf.Count("fault-not-consumed=" + fault)
 	}
-	return run, res
+	return tr
 }
 
 // ---- phases --------------------------------------------------------------------------------
@@ -1079,16 +1199,18 @@ func (p *c16Parent) p1Case(env *c16Env, mi int) (*c16Buf, int, int) {
 	m := env.mods[mi]
 	n := m.N()
 	hFetch, hMod := 0, 0
+	okEq := func(r c16Result) bool { return r.Ok && r.Verdict == "equal" }
+	txt := func(r c16Result) string { return r.Err + " " + r.Verdict + " " + r.ErrText }
 
 	cs := p.newCase(env, fmt.Sprintf("p1a-m%d", mi), map[string]any{"module": mi})
 	b := cs.buf
 	b.Count("phase=P1")
-	avail, _, _ := cs.fromCache(m, "fromcache-empty")
-	b.Direct(!avail, "fromcache-on-empty", "FetchFromCache served a directory from an empty cache", cs.replay)
-	run, res := cs.traced("fetch", m, "fetch-cold", "")
-	b.Direct(res.Ok && res.Verdict == "equal", "clean-fetch-failed", "cold Fetch: "+res.Err+" "+res.Verdict+" "+res.ErrText, cs.replay)
-	if run.Out != nil {
-		hFetch = len(run.Out.Events)
+	tr := cs.traced("fetch", m, "fetch-cold", "", true, true)
+	b.Direct(!tr.Before.Ok, "fromcache-on-empty", "FetchFromCache served a directory from an empty cache", cs.replay)
+	b.Direct(okEq(tr.Res), "clean-fetch-failed", "cold Fetch: "+txt(tr.Res), cs.replay)
+	b.Direct(okEq(tr.After), "not-available-after-fetch", "FetchFromCache after a clean Fetch: "+txt(tr.After), cs.replay)
+	if tr.Run.Out != nil {
+		hFetch = len(tr.Run.Out.Events)
 		b.Count(fmt.Sprintf("p1-fetch-hooks=%d n=%d", hFetch, n))
 		b.Direct(hFetch > 0, "hooks-missing", "a cold Fetch passed no hook point (binary built without -tags verif?)", cs.replay)
 		if hFetch != 11+2*n {
@@ -1096,39 +1218,37 @@ func (p *c16Parent) p1Case(env *c16Env, mi int) (*c16Buf, int, int) {
 		}
 	}
 	b.Safe(n, cs.snap(m), cs.replay)
-	run, res = cs.traced("fetch", m, "fetch-warm", "")
-	b.Direct(res.Ok && res.Verdict == "equal", "clean-fetch-failed", "warm Fetch: "+res.Err+" "+res.Verdict, cs.replay)
-	if run.Out != nil {
-		b.Direct(len(run.Out.Events) == 0, "warm-fetch-effects", "a Fetch on a warm cache passed hook points", cs.replay)
+	tr = cs.traced("fetch", m, "fetch-warm", "", false, true)
+	b.Direct(okEq(tr.Res), "clean-fetch-failed", "warm Fetch: "+txt(tr.Res), cs.replay)
+	b.Direct(okEq(tr.After), "not-available-after-fetch", "FetchFromCache (fresh process) after a clean Fetch: "+txt(tr.After), cs.replay)
+	if tr.Run.Out != nil {
+		b.Direct(len(tr.Run.Out.Events) == 0, "warm-fetch-effects", "a Fetch on a warm cache passed hook points", cs.replay)
 	}
-	avail, verdict, _ := cs.fromCache(m, "fromcache-warm")
-	b.Direct(avail && verdict == "equal", "not-available-after-fetch", "FetchFromCache after a clean Fetch: "+verdict, cs.replay)
-	_, res = cs.traced("modfile", m, "modfile-cold-after-fetch", "")
-	b.Direct(res.Ok && res.Verdict == "equal", "clean-modfile-failed", "cold ModFile: "+res.Err+" "+res.Verdict, cs.replay)
-	_, res = cs.traced("modfile", m, "modfile-warm", "")
-	b.Direct(res.Ok && res.Verdict == "equal", "clean-modfile-failed", "warm ModFile: "+res.Err+" "+res.Verdict, cs.replay)
+	tr = cs.traced("modfile", m, "modfile-cold-after-fetch", "", false, false)
+	b.Direct(okEq(tr.Res), "clean-modfile-failed", "cold ModFile: "+txt(tr.Res), cs.replay)
+	tr = cs.traced("modfile", m, "modfile-warm", "", false, false)
+	b.Direct(okEq(tr.Res), "clean-modfile-failed", "warm ModFile: "+txt(tr.Res), cs.replay)
 	b.Safe(n, cs.snap(m), cs.replay)
 	cs.close()
 
 	cs2 := p.newCase(env, fmt.Sprintf("p1b-m%d", mi), map[string]any{"module": mi})
 	cs2.buf = b
-	run, res = cs2.traced("modfile", m, "modfile-cold", "")
-	b.Direct(res.Ok && res.Verdict == "equal", "clean-modfile-failed", "cold ModFile: "+res.Err+" "+res.Verdict+" "+res.ErrText, cs2.replay)
-	if run.Out != nil {
-		hMod = len(run.Out.Events)
+	tr = cs2.traced("modfile", m, "modfile-cold", "", false, false)
+	b.Direct(okEq(tr.Res), "clean-modfile-failed", "cold ModFile: "+txt(tr.Res), cs2.replay)
+	if tr.Run.Out != nil {
+		hMod = len(tr.Run.Out.Events)
 		b.Count(fmt.Sprintf("p1-modfile-hooks=%d", hMod))
 	}
-	run, res = cs2.traced("modfile", m, "modfile-warm", "")
-	b.Direct(res.Ok && res.Verdict == "equal", "clean-modfile-failed", "warm ModFile: "+res.Err+" "+res.Verdict, cs2.replay)
-	if run.Out != nil {
-		b.Direct(len(run.Out.Events) == 0, "warm-modfile-effects", "a ModFile on a warm cache passed hook points", cs2.replay)
+	tr = cs2.traced("modfile", m, "modfile-warm", "", false, true)
+	b.Direct(okEq(tr.Res), "clean-modfile-failed", "warm ModFile: "+txt(tr.Res), cs2.replay)
+	b.Direct(!tr.After.Ok, "fromcache-on-empty", "FetchFromCache served a directory when only the module file was cached", cs2.replay)
+	if tr.Run.Out != nil {
+		b.Direct(len(tr.Run.Out.Events) == 0, "warm-modfile-effects", "a ModFile on a warm cache passed hook points", cs2.replay)
 	}
-	avail, _, _ = cs2.fromCache(m, "fromcache-modonly")
-	b.Direct(!avail, "fromcache-on-empty", "FetchFromCache served a directory when only the module file was cached", cs2.replay)
-	_, res = cs2.traced("fetch", m, "fetch-cold-after-modfile", "")
-	b.Direct(res.Ok && res.Verdict == "equal", "clean-fetch-failed", "cold Fetch after ModFile: "+res.Err+" "+res.Verdict, cs2.replay)
-	_, res = cs2.traced("fetch", m, "fetch-warm", "")
-	b.Direct(res.Ok && res.Verdict == "equal", "clean-fetch-failed", "warm Fetch: "+res.Err+" "+res.Verdict, cs2.replay)
+	tr = cs2.traced("fetch", m, "fetch-cold-after-modfile", "", false, false)
+	b.Direct(okEq(tr.Res), "clean-fetch-failed", "cold Fetch after ModFile: "+txt(tr.Res), cs2.replay)
+	tr = cs2.traced("fetch", m, "fetch-warm", "", false, false)
+	b.Direct(okEq(tr.Res), "clean-fetch-failed", "warm Fetch: "+txt(tr.Res), cs2.replay)
 	b.Safe(n, cs2.snap(m), cs2.replay)
 	cs2.close()
 	return b, hFetch, hMod
@@ -1176,7 +1296,7 @@ func (p *c16Parent) chainCase(env *c16Env, phase, id string, mi int, kind string
 			prev = now
 		case st.Fault != "":
 			b.Count(phase + " fault=" + st.Fault)
-			_, res := cs.traced(kind, m, fmt.Sprintf("fault%d-%s", si, st.Fault), st.Fault)
+			res := cs.traced(kind, m, fmt.Sprintf("fault%d-%s", si, st.Fault), st.Fault, false, false).Res
 			b.Direct(!res.Ok, "fault-not-an-error",
 				fmt.Sprintf("%s returned no error although the registry failed (%s) (%s)", kind, st.Fault, desc), cs.replay)
 			now := cs.snap(m)
@@ -1196,8 +1316,11 @@ func (p *c16Parent) chainCase(env *c16Env, phase, id string, mi int, kind string
 		b.Count(phase + " recovery-with-stale-tmp")
 	}
 
-	if kind == "fetch" {
-		avail, verdict, _ := cs.fromCache(m, "fromcache-before-recovery")
+	isFetch := kind == "fetch"
+	tr := cs.traced(kind, m, "recovery", "", isFetch, isFetch)
+	run, res := tr.Run, tr.Res
+	if isFetch {
+		avail, verdict := tr.Before.Ok, tr.Before.Verdict
 		b.Direct(!avail || verdict == "equal", "fromcache-incomplete",
 			fmt.Sprintf("FetchFromCache served an incomplete/incorrect directory after %s: %s (state %s)", desc, verdict, prev), cs.replay)
 		if onlyFaults {
@@ -1206,12 +1329,14 @@ func (p *c16Parent) chainCase(env *c16Env, phase, id string, mi int, kind string
 		if avail {
 			b.Count(phase + " available-before-recovery")
 		}
+		if run.Out != nil {
+			b.Direct(tr.Before.Pre == prev, "snapshot-mismatch",
+				"the recovering child saw "+tr.Before.Pre+" but the parent saw "+prev+" in a quiescent state", cs.replay)
+		}
 	} else {
 		f := c16Field(prev, 'f')
 		b.Direct(f == "-" || f == "f", "modfile-partial", "a partial module file is at its final name after "+desc+": "+prev, cs.replay)
 	}
-
-	run, res := cs.traced(kind, m, "recovery", "")
 	h2 := 0
 	if run.Out != nil {
 		h2 = len(run.Out.Events)
@@ -1224,8 +1349,8 @@ func (p *c16Parent) chainCase(env *c16Env, phase, id string, mi int, kind string
 	}
 	final := cs.snap(m)
 	b.Safe(n, final, cs.replay)
-	if kind == "fetch" {
-		avail, verdict, _ := cs.fromCache(m, "fromcache-after-recovery")
+	if isFetch {
+		avail, verdict := tr.After.Ok, tr.After.Verdict
 		b.Direct(avail && verdict == "equal", "not-available-after-recovery",
 			fmt.Sprintf("FetchFromCache after recovery from %s: avail=%v %s (state %s)", desc, avail, verdict, final), cs.replay)
 		b.Direct(c16Field(final, 'd') == fmt.Sprintf("%dg", n) && c16Field(final, 'm') == "0" && c16Field(final, 'z') == "f" && c16Field(final, 'l') == "0",
@@ -1294,9 +1419,21 @@ func (p *c16Parent) p5Case(env *c16Env, round int, r *Rng) *c16Buf {
 	cs.replay["jobs"] = canonText
 	b.add(func(p *c16Parent) { p.c.Case(canonText, true) })
 
-	for _, ch := range children {
-		ch.proc = p.start(cs.spec(ch.worker, ch.jobs, false), 0)
+	// All children initialise, report in, and are then released together.
+	gateDir := cs.dir + "-gate"
+	os.MkdirAll(gateDir, 0o777)
+	defer os.RemoveAll(gateDir)
+	gate := filepath.Join(gateDir, "go")
+	for ci, ch := range children {
+		sp := cs.spec(ch.worker, ch.jobs, false)
+		sp.StartedFile = filepath.Join(gateDir, fmt.Sprintf("started%d", ci))
+		sp.GateFile, sp.GateMs = gate, 30000
+		ch.proc = p.start(sp, 0)
 	}
+	for ci, ch := range children {
+		c16WaitFileOrDone(filepath.Join(gateDir, fmt.Sprintf("started%d", ci)), ch.proc.done, 30*time.Second)
+	}
+	os.WriteFile(gate, []byte("go\n"), 0o666)
 	for ci, ch := range children {
 		run := ch.proc.wait()
 		cs.checkRun(run, fmt.Sprintf("c%d", ci))
@@ -1351,34 +1488,20 @@ func (p *c16Parent) p6Case(env *c16Env, idx int, mi int, hook string, twoGorouti
 	b := cs.buf
 	b.Count("phase=P6")
 	b.Count("p6 hook=" + hook)
-	reached := filepath.Join(cs.dir+"-reached", "reached")
-	os.MkdirAll(filepath.Dir(reached), 0o777)
-	defer os.RemoveAll(filepath.Dir(reached))
+	syncDir := cs.dir + "-sync"
+	os.MkdirAll(syncDir, 0o777)
+	defer os.RemoveAll(syncDir)
+	reached, release, started := filepath.Join(syncDir, "reached"), filepath.Join(syncDir, "release"), filepath.Join(syncDir, "started")
 
+	// A pauses at the hook until B is running (bounded by PauseMs as a safety net).
 	wa := cs.worker("A")
 	sa := cs.spec(wa, c16OneJob("fetch", mi), false)
-	sa.PauseAt, sa.PauseNth, sa.PauseMs, sa.ReachedFile = hook, 1, 400, reached
+	sa.PauseAt, sa.PauseNth, sa.PauseMs, sa.ReachedFile, sa.ReleaseFile = hook, 1, 25000, reached, release
 	if hook == "unzip.file-written" {
 		sa.PauseNth = n
 	}
 	pa := p.start(sa, 0)
-	deadline := time.Now().Add(20 * time.Second)
-	gotThere := false
-poll:
-	for time.Now().Before(deadline) {
-		if _, err := os.Stat(reached); err == nil {
-			gotThere = true
-			break
-		}
-		select {
-		case <-pa.done:
-			if _, err := os.Stat(reached); err == nil {
-				gotThere = true
-			}
-			break poll
-		case <-time.After(3 * time.Millisecond):
-		}
-	}
+	gotThere := c16WaitFileOrDone(reached, pa.done, 20*time.Second)
 	b.Direct(gotThere, "pause-hook-not-reached", "child A never reached hook "+hook, cs.replay)
 
 	wb := cs.worker("B")
@@ -1389,7 +1512,14 @@ poll:
 	} else {
 		b.Count("p6 variant=B-plain")
 	}
-	pb := p.start(cs.spec(wb, jobsB, false), 0)
+	sb := cs.spec(wb, jobsB, false)
+	sb.StartedFile = started
+	pb := p.start(sb, 0)
+	// B is initialised and about to call Fetch: give it a moment to run into A's critical
+	// section (or past it, if the code under test lets it), then let A go on.
+	c16WaitFileOrDone(started, pb.done, 20*time.Second)
+	c16WaitFileOrDone("", pb.done, 300*time.Millisecond)
+	os.WriteFile(release, []byte("go\n"), 0o666)
 	for i, pr := range []*c16Proc{pa, pb} {
 		name := []string{"A", "B"}[i]
 		run := pr.wait()
@@ -1436,7 +1566,7 @@ func c16ParentMain(c *Cfg) {
 	}
 	defer env.hs.Close()
 	r := NewRng(c.Seed)
-	const poolSize = 12
+	const poolSize = 16
 	nm := len(env.mods)
 
 	// P1 (always run: it measures the hook counts; its I ops are dropped in -focus mode).
